@@ -256,6 +256,40 @@ def s_request(vc):
 
 
 # ---------------------------------------------------------------------------------------------
+# configure: the recordings are re-indexed exactly when an option that the matching key depends on changes
+
+# the options ServerPlayback._hash reads (scenario hash.equal_iff_keys_equal varies each of them)
+MATCHING_OPTIONS = ["server_replay_ignore_content", "server_replay_ignore_params", "server_replay_ignore_payload_params",
+                    "server_replay_ignore_host", "server_replay_ignore_port", "server_replay_use_headers"]
+OTHER_OPTIONS = ["server_replay_extra", "server_replay_reuse", "server_replay_refresh", "server_replay_kill_extra", "server_replay",
+                 "server_replay_nopop", "anticache", "ignore_hosts"]
+
+
+@scenario("configure", functions=[SP + ".configure"])
+def s_configure(vc):
+    which = vc.case("updated", ["nothing"] + MATCHING_OPTIONS + OTHER_OPTIONS + ["two_matching", "matching_and_other"])
+    updated = {"nothing": set(), "two_matching": {"server_replay_use_headers", "server_replay_ignore_host"},
+               "matching_and_other": {"server_replay_extra", "server_replay_use_headers"}}.get(which, {which})
+    set_ctx(vc, server_replay=[])
+    r = mk_rec(vc, "r0")
+    k = vc.sym_int("k")
+    addon = vc.new(SP, flowmap=vc.dict([(k, vc.list([r]))]), configured=True)
+    calls = []
+
+    def recompute(v, self_):
+        calls.append(self_)
+        return NONE if v.mode == "sym" else None
+
+    vc.summary(SP + ".recompute_hashes", recompute)
+    out = vc.call(SP + ".configure", addon, vc.lift(set(updated)) if vc.mode == "sym" else set(updated))
+    vc.ensure("no_exception", out.ok)
+    needs = any(o in MATCHING_OPTIONS for o in updated)
+    vc.ensure("reindexed_once_iff_a_matching_option_changed", len(calls) == (1 if needs else 0) and all(c is addon for c in calls))
+    snap = map_snapshot(vc, addon.flowmap)
+    vc.ensure("nothing_loaded_or_dropped_by_configure_itself", len(snap) == 1 and same_flows(snap[0][1], [r]))
+
+
+# ---------------------------------------------------------------------------------------------
 # _hash: equal hashes <=> equal matching keys (sha256 . repr as an injective encoding of the key list)
 
 class KeyBox:
@@ -489,7 +523,10 @@ def bounded(tier, seed):
     # makes all three share a key (re-index)
     histories = [(((0, True), (2, True), (0, True)), (3, 0, 0), 0, 1),
                  # r0 served first; after ignoring x as well, the response-less r2 is flattened in front of the earlier r1
-                 (((2, True), (1, True), (2, False)), (0, 2), 1, 2)]
+                 (((2, True), (1, True), (2, False)), (0, 2), 1, 2),
+                 # run-time change of server_replay_use_headers alone: recordings differing only in that header
+                 (((8, True), (9, True)), (3, 9, 8), 0, 7),
+                 (((8, True), (9, True)), (3, 8), 7, 0)]
     vi = list(range(len(variants)))
     while len(histories) < budget:
         recs = [(rnd.choice(vi[:4] if rnd.random() < 0.6 else vi), rnd.random() < 0.8) for _ in range(rnd.randint(1, nrec))]
@@ -527,8 +564,12 @@ def bounded(tier, seed):
                     b.fail("replay.count_after_load", inp, f"{sp.count()} != {len(unserved)}")
                 for n, qv in enumerate(reqs):
                     if n == 1 and s2 is not None:
-                        opts = dict(defaults, **settings[s2])
-                        tctx.configure(sp, **opts)
+                        new_opts = dict(defaults, **settings[s2])
+                        # a run-time change: only the options whose value changes are reported to configure()
+                        delta = {k_: v_ for k_, v_ in new_opts.items() if opts[k_] != v_}
+                        opts = new_opts
+                        if delta:
+                            tctx.configure(sp, **delta)
                         changed = True
                         if sp.count() != len(unserved):
                             b.fail("replay.reindex_loses_or_duplicates", inp, f"count {sp.count()} != {len(unserved)}")
